@@ -33,17 +33,18 @@ type Finding struct {
 
 // Report accumulates what one run of a property check did.
 type Report struct {
-	Prop     string
-	Tier     string
-	Seed     int64
-	Start    time.Time
-	Covers   []*CoverStats
-	Traces   []*TraceStats
-	Specials []*SpecialStats
-	Findings []Finding
-	Notes    map[string]int // divergences outside the projection of the property
-	Infra    []string       // infrastructure problems (exit 2)
-	NoteEx   map[string]string
+	Prop      string
+	Tier      string
+	Seed      int64
+	Start     time.Time
+	Covers    []*CoverStats
+	Traces    []*TraceStats
+	Specials  []*SpecialStats
+	Findings  []Finding
+	Notes     map[string]int // divergences outside the projection of the property
+	Infra     []string       // infrastructure problems (exit 2)
+	NoteEx    map[string]string
+	RepoStats *run.RepoTraceStats
 }
 
 // SpecialStats is what a property-specific stage measured.
@@ -121,7 +122,11 @@ func (rep *Report) takeCover(def *propDef, st *CoverStats, cats []*cat.Catalog, 
 	}
 	if st.TLC.Coverage != nil {
 		// anti-vacuity: every action of the machine must have been taken in this configuration
-		for _, a := range []string{"GCreateScope", "GProvide", "GDecorate", "GBeginInvoke", "GDescend", "GUnwind", "GExec"} {
+		acts := []string{"GCreateScope", "GProvide", "GDecorate", "GBeginInvoke", "GDescend", "GUnwind", "GExec"}
+		if hasNest(cats) {
+			acts = append(acts, "GEnter", "GNestBegin", "GNestReturn")
+		}
+		for _, a := range acts {
 			if st.TLC.Coverage[a] == 0 && !(a == "GDecorate" && !hasKind(cats, "dec")) && !(a == "GCreateScope" && !hasChildScope(cats)) {
 				rep.Infra = append(rep.Infra, fmt.Sprintf("cover %s: vacuous: action %s was never taken (coverage %v)", st.Family, a, st.TLC.Coverage))
 			}
@@ -241,6 +246,15 @@ func hasKind(cats []*cat.Catalog, kind string) bool {
 	return false
 }
 
+func hasNest(cats []*cat.Catalog) bool {
+	for _, c := range cats {
+		if len(c.NestedInvs()) > 0 {
+			return true
+		}
+	}
+	return false
+}
+
 func hasChildScope(cats []*cat.Catalog) bool {
 	for _, c := range cats {
 		if len(c.Parent) > 1 {
@@ -350,6 +364,12 @@ func (rep *Report) writeEvidence(def *propDef, violations int) {
 			"user_function_executions": t.Execs, "trace_lines": t.TraceLines, "tlc_states": t.TLC.Distinct, "tlc_wall_s": t.TLC.Wall,
 			"predictions_compared": t.Predicted, "containers_accepted": t.Accepted, "strict_rejected_ops": t.StrictBad,
 			"variant_executions_compared_pairwise": t.Pairs, "divergences": t.Divs})
+		if t.Name == "repo-tests" && rep.RepoStats != nil {
+			stages[len(stages)-1]["source"] = "the repository's own test-suite run with the trace hooks of /repo/verif_trace.go (build tag verif); argument values not observed"
+			stages[len(stages)-1]["hook_events"] = rep.RepoStats.Events
+			stages[len(stages)-1]["containers_in_the_test_suite"] = rep.RepoStats.Containers
+			stages[len(stages)-1]["containers_left_out"] = rep.RepoStats.Skipped
+		}
 	}
 	for _, s := range rep.Specials {
 		states += s.States
